@@ -22,7 +22,7 @@ class C20:
             "first_line given, or code with a backward jump; distinct = (host, object kind, first_line, program)")
     assumptions = ["the host's dis is ground truth; CACHE pseudo-instructions (which xdis shows and dis hides) are "
                    "filtered; 3.13 starts_line is a bool: line_number is used; comparison operators by cmp_op index"]
-    budgets = {"quick": {"shards": 14, "examples": 30, "seconds": 75},
+    budgets = {"quick": {"shards": 14, "examples": 60, "seconds": 80},
                "thorough": {"shards": 16, "examples": 1500, "seconds": 1200}}
 
     def strategy(self, ctx):
@@ -36,6 +36,23 @@ class C20:
             fl = draw(st.sampled_from([None, None, 0, 1, 100, 100000, -5]))
             return {"t": "host", "host": h, "first_line": fl, "src": draw(gp.programs(h, exec_safe=True, size=draw(st.integers(2, 4)), bulk=False))}
         return case()
+
+    def strata(self, ctx):
+        out = []
+        for h in HOSTS:
+            @st.composite
+            def host_case(draw, h=h):
+                fl = draw(st.sampled_from([None, None, 0, 1, 100, 100000, -5]))
+                return {"t": "host", "host": h, "first_line": fl,
+                        "src": draw(gp.programs(h, exec_safe=True, size=draw(st.integers(2, 4)), bulk=False))}
+            out.append(["std-on-host:" + h, host_case(), 6])
+        for v in ALL_VERSIONS:
+            @st.composite
+            def api_case(draw, v=v):
+                h = draw(st.sampled_from([t for t in HOSTS if t != v]))
+                return {"t": "api", "host": h, "v": v, "src": draw(gp.programs(v, size=draw(st.integers(2, 4))))}
+            out.append(["make_std_api:" + v, api_case(), 1])
+        return out
 
     def judge(self, case, ctx):
         res = Result()
